@@ -457,16 +457,18 @@ fn dbg_bytes(v: &str) -> Option<Vec<u8>> {
 /// (a') deterministic torn-update detection: every state observable between two acquisitions of
 /// the write lock (recorded at each release) must be a single-update state. Returns (states seen,
 /// problems).
-pub fn release_snapshots_scenario(seed: u64, n_announces: u64) -> (u64, u64, Vec<String>) {
+pub fn release_snapshots_scenario(seed: u64, n_announces: u64) -> (u64, u64, Vec<String>, u64) {
     let own = clock_id(0x50).0;
     let mut b = Build::new(0x50);
     b.n_ports = 2;
     b.path_trace = seed % 2 == 0;
+    let b_path_trace = b.path_trace;
+    let mut looping = 0u64;
     b.seed = seed;
     // a slave-only instance: its ports fall back to listening when the parent is lost, the data
     // sets are rewritten with the own values all the same
     b.slave_only = seed % 4 == 3;
-    let Ok(built) = b.build() else { return (0, 0, vec![]) };
+    let Ok(built) = b.build() else { return (0, 0, vec![], 0) };
     let mut node = built.node;
     let own_tp_text = format!("{:?}", node.inst().time_properties_ds());
     // the parent's port number: ordinary, and the two ends of the range
@@ -478,7 +480,7 @@ pub fn release_snapshots_scenario(seed: u64, n_announces: u64) -> (u64, u64, Vec
     let _ = take_write_releases();
     if node.call(1, Call::AnnounceReceiptTimer).is_err() {
         RECORD_WRITE_RELEASES.store(false, Ordering::Relaxed);
-        return (0, 0, vec![]);
+        return (0, 0, vec![], 0);
     }
     let mut check = |what: &str, problems: &mut Vec<String>, states: &mut u64, maxw: &mut u64| {
         let snaps = take_write_releases();
@@ -546,6 +548,26 @@ pub fn release_snapshots_scenario(seed: u64, n_announces: u64) -> (u64, u64, Vec
             }
             check("BMCA", &mut problems, &mut states, &mut max_writes_per_call);
         }
+        if b_path_trace && k % 11 == 4 {
+            // a looping Announce from the parent (its PATH_TRACE names this instance) is discarded
+            // as a whole: an observer must never see part of it next to the previous update
+            let before = format!("{:?} {:?} {:?}", node.inst().parent_ds(), node.inst().time_properties_ds(), node.inst().current_ds(None));
+            seq = seq.wrapping_add(1);
+            let mut m = tagged_announce(&src, seq, k + 10_007);
+            let mut v = vec![];
+            v.extend_from_slice(&clock_id(0x10).0);
+            v.extend_from_slice(&own);
+            m.tlvs = vec![Tlv::new(TLV_PATH_TRACE, v)];
+            if node.call(0, Call::GeneralRx(m.encode())).is_err() {
+                break;
+            }
+            check("looping parent Announce", &mut problems, &mut states, &mut max_writes_per_call);
+            let after = format!("{:?} {:?} {:?}", node.inst().parent_ds(), node.inst().time_properties_ds(), node.inst().current_ds(None));
+            looping += 1;
+            if before != after {
+                problems.push(format!("looping parent Announce: a discarded Announce left part of its values in the data sets next to those of the previous update: before {before} after {after}"));
+            }
+        }
         if k % 13 == 6 {
             // a run-time quality change writes defaultDS only; the other data sets keep the values
             // of the update they came from (the quality is put back before the next BMCA run)
@@ -580,7 +602,7 @@ pub fn release_snapshots_scenario(seed: u64, n_announces: u64) -> (u64, u64, Vec
         }
     }
     RECORD_WRITE_RELEASES.store(false, Ordering::Relaxed);
-    (states, max_writes_per_call, problems)
+    (states, max_writes_per_call, problems, looping)
 }
 
 fn own_acts(it: statime::port::PortActionIterator<'_>) -> usize {
@@ -632,8 +654,9 @@ pub fn run(rep: &mut Report, tier: &str, seed: u64, shard: (u32, u32), _replay: 
     rep.evn("lock_acquisitions", LOCK_ACQUISITIONS.load(Ordering::Relaxed) - before);
     // ---------------- (a') states observable between write acquisitions
     for r in 0..if miri { 1 } else if thorough { 200 } else { 20 } {
-        let (states, maxw, problems) = release_snapshots_scenario(seed.wrapping_add(r), if miri { 20 } else { 400 });
+        let (states, maxw, problems, looping) = release_snapshots_scenario(seed.wrapping_add(r), if miri { 20 } else { 400 });
         rep.evn("write_release_states_checked", states);
+        rep.evn("looping_parent_announces_checked_for_partial_application", looping);
         rep.extra.insert("max_write_acquisitions_per_host_call".into(), json!(maxw));
         for p in problems.iter().take(3) {
             rep.violation("C17|torn-update|state-between-write-acquisitions", p, json!({"release_snapshots_seed": seed.wrapping_add(r)}));
